@@ -72,6 +72,10 @@ def check(case):
             return None  # None is a legitimate example: cached like any other (the call counter shows recomputation)
         if case.get('unpicklable'):
             return [x, c, (lambda: None)]  # cannot be pickled: the cache may refuse it (never half-handle it)
+        if case.get('with_array'):
+            # ... that also holds a numpy array (a feature matrix): the consumer normalises it IN PLACE
+            import numpy as np
+            return [x, c, np.array([x, c, 7.0])]
         return [x, c]  # a mutable example: the consumer may change it in place (step 'mut')
 
     keys = ['k%d' % i for i in range(n)]
@@ -146,6 +150,15 @@ def check(case):
                 return
             if case.get('unpicklable') and isinstance(v, list) and len(v) == 3:
                 v = v[:2]
+            if case.get('with_array') and isinstance(v, list) and len(v) == 3:
+                import numpy as np
+                if not (isinstance(v[2], np.ndarray) and v[2].shape == (3,) and
+                        np.array_equal(v[2], np.array([v[0], v[1], 7.0]))):
+                    raise Violation(f'not-frozen-array|{path}', f'{desc}\nposition {p} via {path} returned {v!r}; the '
+                                                                f'array the pipeline produced next to {v[:2]} was '
+                                                                f'[{v[0]}, {v[1]}, 7.0] (an earlier consumer changed '
+                                                                f'its own copy in place)')
+                v = v[:2]
             if not (isinstance(v, list) and len(v) == 2 and v[0] == xs[p] and v[1] in calls.get(xs[p], [])):
                 raise Violation(f'not-a-pipeline-value|{path}', f'{desc}\nposition {p} via {path} returned {v!r}; '
                                                                 f'upstream produced {calls.get(xs[p])} for {xs[p]}')
@@ -185,6 +198,10 @@ def check(case):
                 for obj in last:
                     if obj is None:
                         continue
+                    if case.get('with_array') and len(obj) >= 3 and hasattr(obj[2], 'shape'):
+                        obj[2] *= 0.5
+                        obj[2][0] = -5.0
+                        continue  # (only the array is touched, the list around it stays as it was)
                     obj.append('mutated')
                     obj[1] = -1
                 del last[:]
@@ -321,6 +338,8 @@ def st_case(draw):
         case['upstream'] = draw(st.sampled_from([None, None, 'tail', 'rev', 'sortrev']))
     if draw(st.integers(0, 3)) == 0 and not case.get('unpicklable'):
         case['none_x'] = draw(st.integers(0, n - 1))
+    if draw(st.integers(0, 2)) == 0 and not case.get('unpicklable'):
+        case['with_array'] = True
     steps = []
     for _ in range(draw(st.integers(1, 9))):
         r = draw(st.integers(0, 11))
